@@ -383,3 +383,5 @@ func onlyGuards(o *an.Obl, f *an.Func, site an.Site, allowed []string, what stri
 }
 
 func sortStrings(s []string) { sort.Strings(s) }
+
+func regexpQuote(s string) string { return regexp.QuoteMeta(s) }
